@@ -209,8 +209,27 @@ def sum_sign_lemmas(ts):
     return out
 
 
+def _is_indicator(B):
+    """a 0/1 indicator ite(c, 1, 0) or a sum of such: non-negative by form"""
+    if B.op == "ite" and all(T.is_const(x) and T.cval(x) in (0, 1) for x in B.args[1:]):
+        return True
+    if B.op == "+":
+        return all((T.is_const(x) and T.cval(x) >= 0) or (isinstance(x, T.Term) and _is_indicator(x)) for x in B.args)
+    return False
+
+
+def indicator_sum_facts(ts):
+    """sums of indicators are non-negative (lemma:sum-signs, premise discharged by the form of the body)"""
+    out = []
+    for s in {x.uid: x for x in collect(ts, lambda t: t.op == "sum")}.values():
+        if _is_indicator(s.args[0]):
+            out.append(T.le(0, s))
+    return out
+
+
 def _augment(hyps, goal, assume_domains):
     roots = hyps + ([goal] if goal is not None else [])
+    hyps = hyps + indicator_sum_facts(roots)
     if TERM_FACTS:
         extra = sum_sign_lemmas(roots)
         hyps = hyps + extra
